@@ -68,10 +68,19 @@ fn file_xml(f: &FileRec) -> String {
         MONTHS[(m - 1) as usize], y, last_day(y, m), MONTHS[(m - 1) as usize], y
     );
     for (cur, sign) in &f.rates {
-        s.push_str(&format!(
-            "  <exchangeRate>\n    <countryName>X</countryName>\n    <countryCode>XX</countryCode>\n    <currencyName>X</currencyName>\n    <currencyCode>{}</currencyCode>\n    <rateNew>{}</rateNew>\n  </exchangeRate>\n",
-            cur, synthetic_rate(f.id, cur, sign)
-        ));
+        // "dupzero" / "dupneg": the currency is listed twice (HMRC lists one row per country), a good row first and a
+        // non-positive one after it -- the file contains a non-positive rate and must be rejected all the same
+        let rows: Vec<String> = match sign.as_str() {
+            "dupzero" => vec![synthetic_rate(f.id, cur, "pos"), synthetic_rate(f.id, cur, "zero")],
+            "dupneg" => vec![synthetic_rate(f.id, cur, "pos"), synthetic_rate(f.id, cur, "neg")],
+            _ => vec![synthetic_rate(f.id, cur, sign)],
+        };
+        for r in rows {
+            s.push_str(&format!(
+                "  <exchangeRate>\n    <countryName>X</countryName>\n    <countryCode>XX</countryCode>\n    <currencyName>X</currencyName>\n    <currencyCode>{}</currencyCode>\n    <rateNew>{}</rateNew>\n  </exchangeRate>\n",
+                cur, r
+            ));
+        }
     }
     s.push_str("</exchangeRateMonthList>\n");
     // "garbled": for the library (which receives text) the document is cut off in the middle of an element
@@ -278,12 +287,29 @@ fn main() {
         let d = |y, m, dd| NaiveDate::from_ymd_opt(y, m, dd).unwrap_or_default();
         let usd = |x: i64| CurrencyAmount::new(Decimal::new(x, 2), Currency::from_code("USD").unwrap_or(Currency::GBP));
         let eur = |x: i64| CurrencyAmount::new(Decimal::new(x, 2), Currency::from_code("EUR").unwrap_or(Currency::GBP));
-        let lines = vec![
+        let probe_sets: Vec<Vec<Transaction>> = vec![
+            vec![
             Transaction { date: d(2023, 2, 10), ticker: "AAA".into(), operation: Operation::Buy { amount: Decimal::from(10), price: usd(812), fees: eur(150) } },
             Transaction { date: d(2024, 2, 12), ticker: "AAA".into(), operation: Operation::Buy { amount: Decimal::from(4), price: usd(955), fees: usd(100) } },
             Transaction { date: d(2024, 3, 1), ticker: "AAA".into(), operation: Operation::Sell { amount: Decimal::from(6), price: usd(1234), fees: eur(75) } },
             Transaction { date: d(2025, 2, 3), ticker: "AAA".into(), operation: Operation::Sell { amount: Decimal::from(5), price: eur(1100), fees: usd(60) } },
+            ],
+            // months that collide under a careless period key: (Y, 11) / (Y+1, 1) and (Y, 12) / (Y+1, 2) for year * 10 + month
+            vec![
+            Transaction { date: d(2023, 11, 10), ticker: "AAA".into(), operation: Operation::Buy { amount: Decimal::from(10), price: usd(812), fees: usd(150) } },
+            Transaction { date: d(2024, 1, 12), ticker: "AAA".into(), operation: Operation::Buy { amount: Decimal::from(4), price: usd(955), fees: usd(100) } },
+            Transaction { date: d(2023, 12, 1), ticker: "BBB".into(), operation: Operation::Buy { amount: Decimal::from(6), price: eur(1234), fees: eur(75) } },
+            Transaction { date: d(2024, 2, 3), ticker: "BBB".into(), operation: Operation::Sell { amount: Decimal::from(5), price: eur(1100), fees: eur(60) } },
+            ],
+            // ... and year + month: (2023, 3) / (2024, 2) / (2022, 4) / (2021, 5)
+            vec![
+            Transaction { date: d(2021, 5, 10), ticker: "AAA".into(), operation: Operation::Buy { amount: Decimal::from(10), price: usd(812), fees: usd(150) } },
+            Transaction { date: d(2022, 4, 12), ticker: "AAA".into(), operation: Operation::Buy { amount: Decimal::from(4), price: usd(955), fees: usd(100) } },
+            Transaction { date: d(2023, 3, 1), ticker: "AAA".into(), operation: Operation::Sell { amount: Decimal::from(6), price: usd(1234), fees: usd(75) } },
+            Transaction { date: d(2024, 2, 3), ticker: "AAA".into(), operation: Operation::Sell { amount: Decimal::from(5), price: usd(1100), fees: usd(60) } },
+            ],
         ];
+        for lines in &probe_sets {
         let cfgp = full_config();
         let mut first: Option<(Vec<cgt_core::TaxYearSummary>, Vec<cgt_core::Section104Holding>)> = None;
         let mut perm = vec![0usize, 1, 2, 3];
@@ -324,10 +350,11 @@ fn main() {
             let c3 = cfgp.clone();
             if let Ok(Ok(rep2)) = guarded(move || calculate(&twin, None, None, &c3).map_err(|e| e.to_string())) {
                 if (rep2.tax_years.clone(), rep2.holdings.clone()) != *f0 {
-                    findings.push(Finding { prop: "C08".into(), kind: "twin_differs".into(), case: 0, detail: "the order probe ledger and its GBP twin give different reports".into(), input: to_dsl(&lines), data: json!({}) });
+                    findings.push(Finding { prop: "C08".into(), kind: "twin_differs".into(), case: 0, detail: "the order probe ledger and its GBP twin give different reports".into(), input: to_dsl(lines), data: json!({}) });
                 }
             }
         }
+    }
     }
 
     // ---- convert phase, every behaviour through the library
